@@ -2,7 +2,7 @@
   C04, object-layer memory safety as theorems — third continuation (same statement shape `Safe` as C04_allocsafe{,2,3}.lean:
   `ok = true`, destination well formed, every other variable untouched, value-level view = the list-level result; plus the
   integer identity).  Property theorems only; helper lemmas live in MpirProofs/Lemmas/AllocSafeCfdiv2.lean (mpz/cfdiv_q_2exp.c),
-  AllocSafeAorsmul.lean (mpz/aorsmul_i.c, aorsmul.c), AllocSafeMulC.lean (mpz/mul.c).
+  AllocSafeAorsmul.lean (mpz/aorsmul_i.c, aorsmul.c), AllocSafeMulC.lean (mpz/mul.c), AllocSafeTdiv.lean (mpz/tdiv_q.c, tdiv_r.c).
 
   Models: Mpir/Model/AllocSafeMpz3.lean (cfdiv_q_2exp), Mpir/Model/AllocSafeMpz4.lean (everything else here).
   Tied by ops `as3_cdiv_q_2exp`, `as3_fdiv_q_2exp` (part c04_allocsafe3) and `as4_*` (harness/ops_allocsafe4.c; ALLOC SIZ value
@@ -12,6 +12,7 @@ import MpirProofs.Props.C04_allocsafe3
 import MpirProofs.Lemmas.AllocSafeCfdiv2
 import MpirProofs.Lemmas.AllocSafeAorsmul
 import MpirProofs.Lemmas.AllocSafeMulC
+import MpirProofs.Lemmas.AllocSafeTdiv
 import MpirProofs.Props.C01_mpz
 namespace Mpir.AllocSafe
 open Mpir
@@ -184,5 +185,68 @@ example : (mul 17 false 1 ex4 2 3 2).ok = false := by decide
 -- … harmless when w is neither operand; negative: `MPZ_REALLOC (w, usize)` in the one-limb path
 example : (mul 17 false 1 ex4 0 3 2).ok = true := by decide
 example : (mul 17 true 0 ex4 2 2 1).ok = false := by decide
+
+/-! ## mpz_tdiv_q (mpz/tdiv_q.c), mpz_tdiv_r (mpz/tdiv_r.c)
+    (mpz_tdiv_qr and the rest of the division family: pointer-level theorems of part c05_ptr, Props/C05_mpz.lean) -/
+
+/-- mpz_tdiv_q (mpz/tdiv_q.c), den ≠ 0 (the C raises DIVIDE_BY_ZERO otherwise), every allocation and alias pattern
+    (quot == num, quot == den, num == den, all one): `MPZ_REALLOC (quot, ql)` with `ql = nl - dl + 1` is exactly the number of
+    limbs mpn_tdiv_q stores (SUFFICIENT); an operand that is quot is copied to temporary space after the reallocation, from the
+    block that then holds it; `qp[ql - 1]` is inside what was written; nothing is requested when `ql <= 0`.  The quotient is
+    truncated towards zero. -/
+theorem mpz_tdiv_q_alloc_safe (s : St) (q n d : Nat) (hs : s.ok = true)
+    (hq : OWF (s.h q)) (hn : OWF (s.h n)) (hd : OWF (s.h d)) (hd0 : (s.h d).size ≠ 0) :
+    ∃ s', mpz_tdiv_q s q n d = some s' ∧
+      Safe s s' q (Spec.tdiv_q (view (s.h q)) (view (s.h n)) (view (s.h d))) ∧
+      Mpz.toInt (view (s'.h q)) = Int.tdiv (Mpz.toInt (view (s.h n))) (Mpz.toInt (view (s.h d))) := by
+  obtain ⟨s', e, R⟩ := tdiv_q_refines s q n d hs hq hn hd hd0
+  have E := Spec.tdiv_q_spec (view (s.h q)) (view (s.h n)) (view (s.h d)) hq.2.1 hn.2 hd.2 hd0
+  exact ⟨s', e, R.safe E.1, by rw [R.view]; exact E.2⟩
+
+/-- … and NECESSARY: the same function requesting `ql - 1` limbs clears `ok` (the quotient store leaves the block) in every
+    state in which quot's block has fewer than `ql` limbs, quot is neither operand and the numerator is at least as long
+    as the denominator. -/
+theorem mpz_tdiv_q_request_necessary (s : St) (q n d : Nat) (hs : s.ok = true) (hq : OWF (s.h q))
+    (hd0 : (s.h d).size ≠ 0) (hnq : n ≠ q) (hdq : d ≠ q) (hge : (s.h d).size.natAbs ≤ (s.h n).size.natAbs)
+    (hsmall : (s.h q).buf.alloc < (s.h n).size.natAbs - (s.h d).size.natAbs + 1) :
+    ∃ s', tdiv_q 1 s q n d = some s' ∧ s'.ok = false :=
+  tdiv_q_request_necessary s q n d hs hq hd0 hnq hdq hge hsmall
+
+/-- heap for the division examples: 0 = 5 (one limb), 1 = B^3 - 1, 2 = B + 1, 3 = 0 (exact blocks) -/
+def ex5 : St := ⟨fun i => if i = 0 then ⟨1, 0, ⟨1, [5]⟩⟩ else if i = 1 then ⟨3, 0, ⟨3, [B - 1, B - 1, B - 1]⟩⟩
+                  else if i = 2 then ⟨2, 0, ⟨2, [1, 1]⟩⟩ else ⟨0, 0, ⟨1, [junk]⟩⟩, true⟩
+
+-- (B^3-1) / (B+1) = B^2 - B (two limbs) into the one-limb variable, in place on the numerator and on the denominator
+example : (mpz_tdiv_q ex5 0 1 2).map (fun s => (s.ok, view (s.h 0))) = some (true, ⟨2, 2, [0, B - 1]⟩) := by decide
+example : (mpz_tdiv_q ex5 1 1 2).map (fun s => (s.ok, view (s.h 1))) = some (true, ⟨3, 2, [0, B - 1]⟩) := by decide
+example : (mpz_tdiv_q ex5 2 1 2).map (fun s => (s.ok, view (s.h 2))) = some (true, ⟨2, 2, [0, B - 1]⟩) := by decide
+-- 5 / (B+1) = 0 without any reallocation; x / 0: DIVIDE_BY_ZERO
+example : (mpz_tdiv_q ex5 0 0 2).map (fun s => view (s.h 0)) = some ⟨1, 0, []⟩ ∧ mpz_tdiv_q ex5 0 1 3 = none := by decide
+-- negative: `MPZ_REALLOC (quot, ql - 1)`
+example : (tdiv_q 1 ex5 0 1 2).map (fun s => s.ok) = some false := by decide
+
+/-- mpz_tdiv_r (mpz/tdiv_r.c), den ≠ 0: `MPZ_REALLOC (rem, dl)` is exactly the `dl` remainder limbs mpn_tdiv_qr stores (and
+    covers the `nl < dl` copy of the numerator when `ql <= 0`); the quotient goes to `ql` limbs of temporary space; an operand
+    that is rem is copied to temporary space first; MPN_NORMALIZE reads what was written.  The remainder has the sign of the
+    numerator (`Int.tmod`). -/
+theorem mpz_tdiv_r_alloc_safe (s : St) (r n d : Nat) (hs : s.ok = true)
+    (hr : OWF (s.h r)) (hn : OWF (s.h n)) (hd : OWF (s.h d)) (hd0 : (s.h d).size ≠ 0) :
+    ∃ s', mpz_tdiv_r s r n d = some s' ∧
+      Safe s s' r (Spec.tdiv_r (n == r) (view (s.h r)) (view (s.h n)) (view (s.h d))) ∧
+      Mpz.toInt (view (s'.h r)) = Int.tmod (Mpz.toInt (view (s.h n))) (Mpz.toInt (view (s.h d))) := by
+  obtain ⟨s', e, R⟩ := tdiv_r_refines s r n d hs hr hn hd hd0
+  have E := Spec.tdiv_r_spec (n == r) (view (s.h r)) (view (s.h n)) (view (s.h d)) hr.2 hn.2 hd.2 hd0
+    (by intro h; have : n = r := by simpa using h
+        rw [this])
+  exact ⟨s', e, R.safe E.1, by rw [R.view]; exact E.2⟩
+
+-- (B^3-1) mod (B+1) = B - 1 into the one-limb variable (block grown to dl = 2), in place on the numerator and the denominator
+example : (mpz_tdiv_r ex5 0 1 2).map (fun s => (s.ok, view (s.h 0))) = some (true, ⟨2, 1, [B - 1]⟩) := by decide
+example : (mpz_tdiv_r ex5 1 1 2).map (fun s => (s.ok, view (s.h 1))) = some (true, ⟨3, 1, [B - 1]⟩) := by decide
+example : (mpz_tdiv_r ex5 2 1 2).map (fun s => (s.ok, view (s.h 2))) = some (true, ⟨2, 1, [B - 1]⟩) := by decide
+-- 5 mod (B+1) = 5: the numerator is copied (`ql <= 0`), the block still grows to dl limbs
+example : (mpz_tdiv_r ex5 3 0 2).map (fun s => (s.ok, view (s.h 3))) = some (true, ⟨2, 1, [5]⟩) := by decide
+-- negative: `MPZ_REALLOC (rem, dl - 1)` — mpn_tdiv_qr's dl remainder limbs do not fit
+example : (tdiv_r 1 ex5 0 1 2).map (fun s => s.ok) = some false := by decide
 
 end Mpir.AllocSafe
